@@ -1077,36 +1077,40 @@ func (s *ClientSession) ProcessAsyncSessionMessage(message *AsyncMessage) {
 	s.processAsyncMessage(message)
 }
 
+// closePublishersWithoutPermission closes the publishers the session is no
+// longer allowed to have with its current permissions.
+func (s *ClientSession) closePublishersWithoutPermission() {
+	s.mu.Lock()
+	defer s.mu.Unlock()
+
+	if !s.hasPermissionLocked(PERMISSION_MAY_PUBLISH_MEDIA) {
+		if publisher, found := s.publishers[StreamTypeVideo]; found {
+			if (publisher.HasMedia(MediaTypeAudio) && !s.hasPermissionLocked(PERMISSION_MAY_PUBLISH_AUDIO)) ||
+				(publisher.HasMedia(MediaTypeVideo) && !s.hasPermissionLocked(PERMISSION_MAY_PUBLISH_VIDEO)) {
+				delete(s.publishers, StreamTypeVideo)
+				log.Printf("Session %s is no longer allowed to publish media, closing publisher %s", s.PublicId(), publisher.Id())
+				go func() {
+					publisher.Close(context.Background())
+				}()
+			}
+		}
+	}
+	if !s.hasPermissionLocked(PERMISSION_MAY_PUBLISH_SCREEN) {
+		if publisher, found := s.publishers[StreamTypeScreen]; found {
+			delete(s.publishers, StreamTypeScreen)
+			log.Printf("Session %s is no longer allowed to publish screen, closing publisher %s", s.PublicId(), publisher.Id())
+			go func() {
+				publisher.Close(context.Background())
+			}()
+		}
+	}
+}
+
 func (s *ClientSession) processAsyncMessage(message *AsyncMessage) {
 	switch message.Type {
 	case "permissions":
 		s.SetPermissions(message.Permissions)
-		go func() {
-			s.mu.Lock()
-			defer s.mu.Unlock()
-
-			if !s.hasPermissionLocked(PERMISSION_MAY_PUBLISH_MEDIA) {
-				if publisher, found := s.publishers[StreamTypeVideo]; found {
-					if (publisher.HasMedia(MediaTypeAudio) && !s.hasPermissionLocked(PERMISSION_MAY_PUBLISH_AUDIO)) ||
-						(publisher.HasMedia(MediaTypeVideo) && !s.hasPermissionLocked(PERMISSION_MAY_PUBLISH_VIDEO)) {
-						delete(s.publishers, StreamTypeVideo)
-						log.Printf("Session %s is no longer allowed to publish media, closing publisher %s", s.PublicId(), publisher.Id())
-						go func() {
-							publisher.Close(context.Background())
-						}()
-					}
-				}
-			}
-			if !s.hasPermissionLocked(PERMISSION_MAY_PUBLISH_SCREEN) {
-				if publisher, found := s.publishers[StreamTypeScreen]; found {
-					delete(s.publishers, StreamTypeScreen)
-					log.Printf("Session %s is no longer allowed to publish screen, closing publisher %s", s.PublicId(), publisher.Id())
-					go func() {
-						publisher.Close(context.Background())
-					}()
-				}
-			}
-		}()
+		go s.closePublishersWithoutPermission()
 		return
 	case "message":
 		if message.Message.Type == "bye" && message.Message.Bye.Reason == "room_session_reconnected" {
